@@ -303,6 +303,9 @@ class IsoImage:
     def _decode_name(self, ident, encoding, off):
         if ident in (b'\x00', b'\x01'):
             return ident.decode('latin-1')
+        if encoding == 'joliet' and len(ident) > 128 + 4:
+            # Joliet: at most 64 UCS-2 units (128 bytes), plus ';1' where a version is recorded
+            self.anom('joliet/name-longer-than-64-units', off, '%d bytes' % len(ident))
         try:
             if encoding == 'joliet':
                 return ident.decode('utf-16_be')
